@@ -127,11 +127,8 @@ theorem RelC.of_cnt {cv : Bool} {l : Loc} {σ : St} {E : Spec.Env} (hR : RelC cv
     RelC cv l { σ with cnt := n } E :=
   ⟨hR.vars, hR.loops, hR.nb, hR.nf, hR.funs, hR.mod, hR.cview, hR.lcaller⟩
 
-theorem bal_post {i top rest σ σ'} (b : Bal i top rest σ σ') (hn : σ.next = []) : Post σ σ' := by
-  refine ⟨b.frames, b.loops, ?_⟩
-  rcases b.next with h | h
-  · exact h
-  · rw [h, hn]
+theorem bal_post {i top rest σ σ'} (b : Bal i top rest σ σ') (_hn : σ.next = []) : Post σ σ' := by
+  exact ⟨b.frames, b.loops, b.next⟩
 
 /-! ## the refinement, for one fuel -/
 
